@@ -376,6 +376,9 @@ func (c *Ctx) stringElems(v ssa.Value) ([]string, bool) {
 			return nil, true
 		}
 	case *ssa.Slice:
+		if g, ok := s.X.(*ssa.Global); ok {
+			return c.globalStringArray(g)
+		}
 		al, ok := s.X.(*ssa.Alloc)
 		if !ok {
 			return nil, false
@@ -409,17 +412,34 @@ func (c *Ctx) stringElems(v ssa.Value) ([]string, bool) {
 		}
 		return res, true
 	case *ssa.Call:
-		// append(base, more...)
-		if isBuiltin(&s.Call, "append") && len(s.Call.Args) == 2 {
-			a, ok1 := c.stringElems(s.Call.Args[0])
-			if !ok1 {
-				return nil, false
+		// append chains: append(append(base, a...), b...)
+		if isBuiltin(&s.Call, "append") {
+			base, elems := c.appendChain(s, 0)
+			var out []string
+			if !isEmptySliceBase(base) {
+				b, ok := c.stringElems(base)
+				if !ok {
+					b = []string{"<base:" + calleeQOf(base) + ">"}
+				}
+				out = append(out, b...)
 			}
-			b, ok2 := c.stringElems(s.Call.Args[1])
-			if !ok2 {
-				b = []string{"<args...>"}
+			for _, e := range elems {
+				switch {
+				case e.Spread != nil:
+					sub, ok := c.stringElems(e.Spread)
+					if !ok {
+						sub = []string{"<args...>"}
+					}
+					out = append(out, sub...)
+				default:
+					if str, ok := constStr(e.Val); ok {
+						out = append(out, str)
+					} else {
+						out = append(out, "<dyn>")
+					}
+				}
 			}
-			return append(append([]string{}, a...), b...), true
+			return out, true
 		}
 	case *ssa.Parameter:
 		return []string{"<args...>"}, true
@@ -575,4 +595,152 @@ func posOf(in ssa.Instruction) token.Pos {
 		return b.Parent().Pos()
 	}
 	return token.NoPos
+}
+
+
+// appendChain flattens `append(append(base, a...), b...)` (possibly through
+// single-store locals and phis with one real source) into the base value and
+// the list of element sources: each element is either a single value or a
+// spread marker (Spread != nil) for `xs...` of a non-literal slice.
+type chainElem struct {
+	Val    ssa.Value // element value (for literals)
+	Spread ssa.Value // `xs...` of a slice that is not a literal here
+}
+
+func (c *Ctx) appendChain(v ssa.Value, depth int) (base ssa.Value, elems []chainElem) {
+	v = c.resolve(v)
+	if depth > 8 {
+		return v, nil
+	}
+	call, ok := v.(*ssa.Call)
+	if !ok || !isBuiltin(&call.Call, "append") {
+		return v, nil
+	}
+	base, elems = c.appendChain(call.Call.Args[0], depth+1)
+	if len(call.Call.Args) < 2 {
+		return base, elems
+	}
+	more := c.resolve(call.Call.Args[1])
+	if vals := c.sliceElemValues(more); vals != nil {
+		for _, x := range vals {
+			elems = append(elems, chainElem{Val: x})
+		}
+		return base, elems
+	}
+	elems = append(elems, chainElem{Spread: more})
+	return base, elems
+}
+
+// isEmptySliceBase: nil, a zero-length make, or an empty literal.
+func isEmptySliceBase(v ssa.Value) bool {
+	switch x := v.(type) {
+	case *ssa.Const:
+		return x.Value == nil
+	case *ssa.MakeSlice:
+		n, ok := constInt(x.Len)
+		return ok && n == 0
+	case *ssa.Slice:
+		if al, ok := x.X.(*ssa.Alloc); ok {
+			if n, ok := staticLenOf(al.Type()); ok && n == 0 {
+				return true
+			}
+		}
+	}
+	return false
+}
+
+func staticLenOf(t types.Type) (int64, bool) {
+	if p, ok := t.Underlying().(*types.Pointer); ok {
+		if a, ok := p.Elem().Underlying().(*types.Array); ok {
+			return a.Len(), true
+		}
+	}
+	return 0, false
+}
+
+
+func calleeQOf(v ssa.Value) string {
+	if call, ok := v.(*ssa.Call); ok {
+		return calleeQ(&call.Call)
+	}
+	return fmt.Sprintf("%T", v)
+}
+
+// globalStringArray reads a package-level [N]string / []string initialised
+// with constants in the package initialiser.
+func (c *Ctx) globalStringArray(g *ssa.Global) ([]string, bool) {
+	if g.Pkg == nil {
+		return nil, false
+	}
+	initFn := g.Pkg.Func("init")
+	if initFn == nil {
+		return nil, false
+	}
+	vals := map[int64]string{}
+	var n int64 = -1
+	if a, ok := g.Type().Underlying().(*types.Pointer).Elem().Underlying().(*types.Array); ok {
+		n = a.Len()
+	}
+	ok := true
+	allInstrs(initFn, func(in ssa.Instruction) {
+		ia, isIA := in.(*ssa.IndexAddr)
+		if !isIA || ia.X != ssa.Value(g) {
+			return
+		}
+		idx, isC := constInt(ia.Index)
+		if !isC {
+			ok = false
+			return
+		}
+		for _, st := range storesTo(ia) {
+			if str, isS := constStr(st.Val); isS {
+				vals[idx] = str
+			} else {
+				ok = false
+			}
+		}
+	})
+	if !ok || n < 0 {
+		return nil, false
+	}
+	out := make([]string, n)
+	for i := range out {
+		out[i] = vals[int64(i)]
+	}
+	return out, true
+}
+
+
+// sepOfIndexCall: for strings/bytes IndexByte(x, b) or Index(x, "b") with a
+// one-byte constant separator, the separator byte.
+func (c *Ctx) sepOfIndexCall(call *ssa.Call) (int64, bool) {
+	q := calleeQ(&call.Call)
+	switch q {
+	case "strings.IndexByte", "bytes.IndexByte", "strings.LastIndexByte", "bytes.LastIndexByte", "strings.IndexRune", "bytes.IndexRune":
+		return constInt(call.Call.Args[1])
+	case "strings.Index", "bytes.Index", "strings.LastIndex", "bytes.LastIndex":
+		sv := c.resolve(call.Call.Args[1])
+		if cv, ok := sv.(*ssa.Convert); ok {
+			sv = cv.X
+		}
+		if s, ok := constStr(sv); ok && len(s) == 1 {
+			return int64(s[0]), true
+		}
+	}
+	return 0, false
+}
+
+
+// factsOnEdge: the facts at the end of block `from` plus, when `from` ends
+// in a branch, the outcome that leads to `to`.
+func factsOnEdge(from, to *ssa.BasicBlock) []condFact {
+	out := factsAt(from)
+	if iff, ok := from.Instrs[len(from.Instrs)-1].(*ssa.If); ok && from.Succs[0] != from.Succs[1] {
+		if from.Succs[0] == to {
+			out = append([]condFact{{iff.Cond, true, iff}}, out...)
+		} else if from.Succs[1] == to {
+			out = append([]condFact{{iff.Cond, false, iff}}, out...)
+		}
+	}
+	return out
 }
